@@ -4,3 +4,4 @@ import AtsimModel.Driver.Range
 import AtsimModel.Driver.Cutoff
 import AtsimModel.Driver.Expr
 import AtsimModel.Driver.Lang
+import AtsimModel.Driver.Trace
